@@ -60,6 +60,11 @@ type watchClient struct{ c *Client }
 func (wc *watchClient) Watch(ctx context.Context, key string, opts ...clientv3.OpOption) clientv3.WatchChan {
 	op := clientv3.OpGet(key, opts...)
 	s := wc.c.S
+	if !wc.c.NoPoints {
+		// establishing the stream is a step of its own: changes can land between a
+		// preceding Get and this call
+		sched.Env("etcd." + wc.c.Who + ".Watch")
+	}
 	w := &watcher{c: wc.c, start: op.KeyBytes(), end: op.RangeBytes(), out: make(chan clientv3.WatchResponse, 4096), notify: make(chan struct{}, 1), ctx: ctx}
 	s.mu.Lock()
 	w.id = s.nextWatch
